@@ -208,7 +208,8 @@ def run_case(case, acc):
 
 def gen_case(rng, max_days):
     cfg = sesswl.gen_cfg(rng, alpha_kinds=('fixed', 'single', 'topn_mom', 'sma_trend', 'inv_vol', 'mom_sign'),
-                         universe_kinds=('static', 'dynamic'), max_days=max_days, full_data=False, nan_cells='any')
+                         universe_kinds=('static', 'dynamic'), max_days=max_days, full_data=False, nan_cells='any',
+                         two_sources=0.3, stale=True)
     d0 = dt.date.fromisoformat(cfg['start'][:10])
     d1 = dt.date.fromisoformat(cfg['end'][:10])
     n = (d1 - d0).days
@@ -219,7 +220,10 @@ def gen_case(rng, max_days):
         b = dt.date.fromisoformat(cfg['burn_in'][:10])
         if inst and inst[0].date() > b:
             T = b + dt.timedelta(days=rng.randint(0, (inst[0].date() - b).days - 1))
-    return {'cfg': cfg, 'rw': {'T': T.isoformat(), 'kind': rng.choice(REWRITES), 'seed': rng.randint(0, 10 ** 6)},
+    kind = rng.choice(REWRITES)
+    if cfg.get('market2') and rng.random() < 0.6:
+        kind = rng.choice(['remove_all', 'delete'])      # how far each vendor's files reach differs between the worlds
+    return {'cfg': cfg, 'rw': {'T': T.isoformat(), 'kind': kind, 'seed': rng.randint(0, 10 ** 6)},
             'pre': rng.random() < 0.4}
 
 
